@@ -134,6 +134,16 @@ CHECKS = {
             "Mutants whose content type becomes change_cipher_spec or whose epoch becomes 0 do not claim protection (statement's own "
             "exemption); timing side channels of the padding check are not observable by this technique.",
             "DESIGN.md §4 C05"),
+    "C06": ("fault_enumeration",
+            "runtime monitoring of recorded histories with unique payloads: captured records are re-delivered following enumerated "
+            "arrival scripts in lock step; oracle = multiplicity <= 1 plus an independent sliding-window model over the decoded wire "
+            "sequence numbers",
+            "Exhaustive: every arrival script of length <= n+2 over n <= 3 (quick) / 4 (thorough) records. Window-edge families for 16 window "
+            "sizes (1..200, incl. sizes that are not multiples of 64): a record held until W-1 / W / W+1 newer ones were accepted, replayed "
+            "repeatedly. Bursts, full reversal within the window, DTLS 1.3 scripts spanning a KeyUpdate, PRNG scripts over 120-300 records. "
+            "Five configurations (GCM, CBC, CCM-8 with CID, DTLS 1.3 GCM, DTLS 1.3 ChaCha20 with CID).",
+            "A record whose first arrival is W or more behind the newest accepted one may be dropped or delivered (not judged).",
+            "DESIGN.md §4 C06"),
 }
 
 NOT_YET = "monitor not built yet in this session (see DESIGN.md for the planned design)"
